@@ -33,6 +33,7 @@ META = {
                   "hypothesis of the semantic theorems and is tested, not proved, on a bounded universe of trait "
                   "references. Panics inside the solver queries themselves are outside the model and only searched for.",
     "design_ref": "DESIGN.md §4 C19, §5 F2",
+    "bins": ["coh"],
     "assumptions": [
         "impls without any specialization relation have no entry in SpecializationPriorities; they are read as the default priority 0",
         "marker traits are exempt from the semantic clauses (their impls may overlap by design and get no priorities)",
